@@ -637,13 +637,17 @@ impl G2Projective {
         } else {
             scalars.len()
         };
+        // The empty sum is the identity (blst's Pippenger indexes its first point).
+        if n == 0 {
+            return Self::identity();
+        }
 
         let points =
-            unsafe { std::slice::from_raw_parts(points.as_ptr() as *const blst_p2, points.len()) };
+            unsafe { std::slice::from_raw_parts(points.as_ptr() as *const blst_p2, n) };
         let points = p2_affines::from(points);
 
         let mut scalar_bytes: Vec<u8> = Vec::with_capacity(n * 32);
-        for a in scalars.iter().map(|s| s.to_bytes_le()) {
+        for a in scalars[..n].iter().map(|s| s.to_bytes_le()) {
             scalar_bytes.extend_from_slice(&a);
         }
 
